@@ -193,19 +193,31 @@ def main(tier, seed, replay=None):
     try:
         from ckl.values import ValueList, ValueString
         for k in range(1, 6):
-            body = "".join("def v%d = %d;\n" % (i, i) for i in range(k - 1)) + "def boom() do\n  undefined_in_module\nend;\n"
-            open(os.path.join(d, "c20mod%d.ckl" % k), "w").write(body)
-            I = impl.new_interpreter(False, False)
-            I.base_environment.put("checkerlang_module_path", ValueList().addItem(ValueString(d)))
-            try:
-                I.interpret("require c20mod%d;\n\nc20mod%d->boom()" % (k, k), "main.ckl")
-                got = None
-            except CklRuntimeError as e:
-                got = e
-            rep.count()
-            if got is None or got.pos.filename != "mod:c20mod%d" % k or got.pos.line != k + 1:
-                md += 1
-                rep.violation("input", "error in module c20mod%d line %d reported as %s" % (k, k + 1, getattr(got, "pos", got)), check="module", k=k)
+            pad = "".join("def v%d = %d;\n" % (i, i) for i in range(k - 1))
+            open(os.path.join(d, "c20mod%d.ckl" % k), "w").write(pad + "def boom() do\n  undefined_in_module\nend;\n")
+            open(os.path.join(d, "c20ld%d.ckl" % k), "w").write(pad + "def w = 1;\nundefined_at_load;\n")
+            open(os.path.join(d, "c20sy%d.ckl" % k), "w").write(pad + "def w = 1;\n)\n")
+            # (program, module whose code fails, line within the module): every way of requiring and reaching the module's code
+            progs = [("require c20mod%d;\n\nc20mod%d->boom()" % (k, k), "c20mod%d" % k, k + 1),
+                     ("require c20mod%d as zz;\nzz->boom()" % k, "c20mod%d" % k, k + 1),
+                     ("require c20mod%d unqualified;\nboom()" % k, "c20mod%d" % k, k + 1),
+                     ("require c20mod%d import [boom as bb];\nbb()" % k, "c20mod%d" % k, k + 1),
+                     ("require c20mod%d as first; require c20mod%d;\nc20mod%d->boom()" % (k, k, k), "c20mod%d" % k, k + 1),
+                     ("require c20ld%d" % k, "c20ld%d" % k, k + 1), ("require c20ld%d as q" % k, "c20ld%d" % k, k + 1),
+                     ("require c20sy%d" % k, "c20sy%d" % k, k + 1), ("require c20sy%d as q" % k, "c20sy%d" % k, k + 1),
+                     ("require c20sy%d unqualified" % k, "c20sy%d" % k, k + 1)]
+            for src, modname, line in progs:
+                I = impl.new_interpreter(False, False)
+                I.base_environment.put("checkerlang_module_path", ValueList().addItem(ValueString(d)))
+                try:
+                    I.interpret(src, "main.ckl")
+                    got = None
+                except (CklRuntimeError, CklSyntaxError) as e:
+                    got = e
+                rep.count()
+                if got is None or got.pos is None or got.pos.filename != "mod:" + modname or got.pos.line != line:
+                    md += 1
+                    rep.violation("input", "error in module %s line %d reached by %r is reported as %s" % (modname, line, src, getattr(got, "pos", got)), check="module", k=k, program=src)
     finally:
         import shutil
         shutil.rmtree(d, ignore_errors=True)
